@@ -722,6 +722,10 @@ class Elem:
             raise TypeError("not an Elem")
         if self._key != other._key:
             raise TypeError("different kind")
+        if self.family is not None and self.family.startswith("!"):
+            # like quantity classes: same sort key, but asking for a factor
+            # is a TypeError, not "None"
+            raise TypeError("elements of this kind are not convertible")
         if self.family is not None and self.family == other.family:
             return self.factor / other.factor
         return None
